@@ -32,6 +32,19 @@ CHECKS = {
     },
 }
 
+CHECKS["C12"] = {
+    "level": "exploration",
+    "technique": _TECH + ": independent AES-GCM frame codec as wiretap and as sender against real streams; counters near 2^32 via imported state",
+    "level_text": "Seeded exploration with an independent oracle: generated send histories (cleartext prefixes of every shape including none, empty/multi-frame/typed messages, both directions interleaved by the scheduler, secrets on a keyed non-encrypting stream) run on two real streams; refcodec - written from the property statement, sharing no code with cedar - opens every emitted frame under the documented nonce/AAD/IV rule, records the nonce set, compares base IVs, and in a second scenario builds the frames itself and feeds them to the real receiver. Counters are started at 2^32-1-k (k=0..6) through a patched exported session blob and the stream must refuse to send rather than wrap. Symmetric mistakes that cedar-to-cedar tests cannot see fail here.",
+    "level_note": "Trusts Go's crypto/aes+cipher (used by both cedar and the reference) and the reference's reading of the format in the property statement. The blob patch locates the counters relative to the key bytes and is validated (both read back as 1) before use.",
+    "budget": {"quick": 25, "thorough": 900},
+    "rule": "a case is one generated send history on two real keyed streams (or reference-sender vs real receiver, or a counter-limit run); every wire frame is opened by the reference codec. "
+            "Distinct = distinct event-log hash; non-trivial = the scheduler had a choice (both directions in flight).",
+    "real": _REAL_STREAM + ["stream.ExportCryptoState/NewStreamWithCryptoState (wrap scenario)"],
+    "stub": _SIM + ["reference AES-GCM frame codec (refcodec) as wiretap and as scripted sender"],
+    "assumptions": ["keys installed with SetSymmetricKey after a cleartext prefix exchange", _SAMPLING],
+}
+
 CHECKS["C02"] = {
     "level": "fault_enumeration",
     "technique": _TECH + ": frame-aware on-path adversary between two keyed real streams; single faults enumerated, multi-fault combinations seeded",
